@@ -8,3 +8,4 @@ import Xrfmv.Props.C02
 #print axioms Xrfmv.Props.C02.ridge_exists_unique_lpq
 #print axioms Xrfmv.Props.C02.ridge_exists_unique_laplace
 #print axioms Xrfmv.Props.C02.ridge_exists_unique_product
+#print axioms Xrfmv.Props.C02.ridge_exists_unique_sumPower
